@@ -1418,19 +1418,49 @@ func copierCovers(fn *ssa.Function, typ string) bool {
 						continue
 					}
 					tb := iff.Block().Succs[0]
-					for _, bb := range fn.Blocks {
-						if !(bb == tb || tb.Dominates(bb)) || len(tb.Preds) != 1 {
-							continue
+					if len(tb.Preds) != 1 {
+						continue
+					}
+					// every return that can be reached once the argument is known
+					// to be a *T hands back a fresh *T: a copier that returns the
+					// argument itself on some path (a copy made "only when needed")
+					// gives a shared object to whoever mutates the result
+					fresh, stale := 0, 0
+					seen := map[*ssa.BasicBlock]bool{}
+					var walk func(bb *ssa.BasicBlock)
+					walk = func(bb *ssa.BasicBlock) {
+						if seen[bb] {
+							return
 						}
-						ret, ok := terminator(bb).(*ssa.Return)
-						if !ok || len(ret.Results) != 1 {
-							continue
-						}
-						if mi, ok := ret.Results[0].(*ssa.MakeInterface); ok {
-							if al, ok := mi.X.(*ssa.Alloc); ok && al.Heap && objectStructName(al.Type()) == typ {
-								return true
+						seen[bb] = true
+						if ret, ok := terminator(bb).(*ssa.Return); ok {
+							isFresh := false
+							if len(ret.Results) == 1 {
+								for _, o := range origins(ret.Results[0]) {
+									if mi, ok := o.(*ssa.MakeInterface); ok {
+										if al, ok := mi.X.(*ssa.Alloc); ok && al.Heap && objectStructName(al.Type()) == typ {
+											isFresh = true
+											continue
+										}
+									}
+									isFresh = false
+									break
+								}
 							}
+							if isFresh {
+								fresh++
+							} else {
+								stale++
+							}
+							return
 						}
+						for _, sc := range bb.Succs {
+							walk(sc)
+						}
+					}
+					walk(tb)
+					if fresh > 0 && stale == 0 {
+						return true
 					}
 				}
 			}
